@@ -780,6 +780,104 @@ def tail_catalogue():
     return cases
 
 
+# ----------------------------------------------------------------------------- call_lib inside a list callback
+# (round 7): the foreign call happens in a function that the built-in `map` / `filter` runs once per element.  An
+# error raised by the foreign function (or a missing library / symbol) must stop the program at the FIRST element:
+# the foreign function is entered once, the report carries the message, and neither the callback, nor the rest of the
+# list, nor the module goes on.  For a returned value the callback's results are what the built-in collects.
+CB_AFTER, CB_CONT = "@@C19-CB-AFTER@@", "@@C19-CB-CONTINUED@@"
+
+
+def build_callback(case, lib):
+    cp = case["callback"]
+    path, variant, fault = resolve(cp["lib"], lib)
+    func, hop = cp["func"], cp["hop"]
+    call = [(OP["call_lib"], [path if bare_ok(path) else quote_arg(path), func])]
+    prog = b""
+    if hop:       # the callback calls a helper that does the foreign call
+        prog += assemble([make_instr(v, 0) for v in cp["push"]] + call + [(OP["ret"], [])], "helper")
+        inner = [(OP["call"], ["x.mmm#helper"])]
+    else:
+        inner = [make_instr(v, 0) for v in cp["push"]] + call
+    cb = [(OP["arg"], ["0"]), (OP["store"], ["x"])] + inner + [(OP["store"], ["r"]),
+          (OP["make_str"], [quote_arg(CB_CONT)]), (OP["printn"], ["*"]), (OP["void"], []), (OP["load"], ["r"]), (OP["ret"], [])]
+    prog += assemble(cb, "cb")
+    module = [(OP["make_str"], [quote_arg(START)]), (OP["printn"], ["*"]), (OP["void"], []),
+              (OP["make_vector"], ["3"]), (OP["store_fast"], ["#0"])]
+    for k in (1, 2, 3):
+        module += [(OP["make_int"], [str(k)]), (OP["vec_op"], ["+#0"])]
+    module += [(OP["delete_name_reference_scoped"], ["#0"]), (OP["store"], ["xs"]),
+               (OP["make_function"], ["x.mmm#cb"]), (OP["store"], ["cbv"]),
+               (OP["load"], ["xs"]), (OP["store_fast"], ["#1"]), (OP["load_fast"], ["#1"]), (OP["lookup"], [cp["builtin"]]),
+               (OP["store_fast"], ["#2"]), (OP["load"], ["cbv"]), (OP["store_fast"], ["#3"]), (OP["load_fast"], ["#3"]),
+               (OP["ld_self"], ["#1"]), (OP["load_fast"], ["#2"]), (OP["call"], []), (OP["store"], ["ys"]),
+               (OP["load"], ["ys"]), (OP["printn"], ["*"]), (OP["void"], []),
+               (OP["make_str"], [quote_arg(CB_AFTER)]), (OP["printn"], ["*"]), (OP["void"], []), (OP["ret"], [])]
+    prog += assemble(module, "__module__")
+    if variant and has_symbol(func, variant):
+        exp = probe_model(func, cp["push"], variant)
+    else:
+        exp = ("fault", fault or "missing_symbol")
+    return prog, {"path": path, "variant": variant, "expect": exp, "func": func, "stack": list(cp["push"])}
+
+
+def decide_callback(case, info, res, trace_text, probe_text):
+    problems = []
+    cnt = {"args_compared": 0, "ffi_L": 0, "ffi_R": 0, "probe_records": 0, "instr_events": 0, "oplen_checks": 0,
+           "results_compared": 0, "prints_compared": 0, "stops_checked": 0, "deep_failing_calls": 0,
+           "deep_max_report_lines": 0}
+    cls = case["class"]
+    events, _trunc = read_trace(trace_text or "")
+    cnt["instr_events"] = sum(1 for e in events if e[0] == "I")
+    cnt["ffi_L"] = n_l = sum(1 for e in events if e[0] == "L")
+    cnt["ffi_R"] = sum(1 for e in events if e[0] == "R")
+    exp = info["expect"]
+    cnt["stops_checked"] = 1
+    if START not in res.out.split("\n")[0:1][0] if res.out else True:
+        problems.append((cls, "start_marker_missing", "stdout %r" % res.out[:200]))
+    if exp[0] in ("raise", "fault"):
+        if res.cls == "ok":
+            problems.append((cls, "failure_not_reported", "a %s inside a `%s` callback: exit status 0 (stdout %r)" % (
+                "raised error" if exp[0] == "raise" else exp[1], case["callback"]["builtin"], res.out[-300:])))
+        elif core.BANNER not in res.err:
+            problems.append((cls, "no_error_report", "exit %s without the interpreter's report: %r" % (res.rc, res.err[-300:])))
+        elif exp[0] == "raise" and exp[1] not in res.err:
+            problems.append((cls, "message_lost", "the report does not carry the foreign message %r: %r" % (exp[1], res.err[-400:])))
+        if CB_CONT in res.out or CB_AFTER in res.out:
+            problems.append((cls, "continued_after_error", "instructions after the failed foreign call ran (stdout %r)" % res.out[-300:]))
+        if exp[0] == "raise" and n_l != 1:
+            problems.append((cls, "foreign_function_entered_%d_times" % n_l, "a raising foreign function inside a callback over 3 elements must be entered once"))
+    else:
+        if res.cls != "ok":
+            problems.append((cls, "unexpected_failure", "return form %s inside a callback failed: %r" % (exp[0], res.err[-300:])))
+        else:
+            if n_l != 3:
+                problems.append((cls, "foreign_function_entered_%d_times" % n_l, "the callback runs once per element (3)"))
+            if res.out.count(CB_CONT) != 3 or CB_AFTER not in res.out:
+                problems.append((cls, "callback_or_module_did_not_continue", "stdout %r" % res.out[-300:]))
+            cnt["results_compared"] = 1
+    return problems, cnt
+
+
+def callback_catalogue():
+    cases = []
+    for builtin in ("map", "filter"):
+        for hop in (False, True):
+            forms = [("raise", "probe"), ("raise", "b/plugin"), ("echo_first", "missing"), ("no_such_symbol", "probe"),
+                     ("echo_first", "notalib")]
+            forms += [("const_int", "probe"), ("echo_first", "probe")] if builtin == "map" else [("const_bool", "probe")]
+            for func, lib in forms:
+                live = {"probe": "A", "b/plugin": "B", "c/plugin": "C"}.get(lib)
+                if live and func not in ("no_such_symbol",) and not has_symbol(func, live):
+                    continue
+                form = ((func if has_symbol(func, live) else "missing_symbol") if live else
+                        {"missing": "missing_library", "notalib": "not_a_library"}[lib.split("/")[0]])
+                cases.append({"id": "callback:%s:%s:%s@%s" % (builtin, "via_helper" if hop else "direct", func, lib),
+                              "class": "callback/%s" % form, "last_func": func,
+                              "callback": {"builtin": builtin, "hop": hop, "push": [("int", 7)], "func": func, "lib": lib}})
+    return cases
+
+
 def deep_catalogue():
     cases = []
     vec = [("str", "raised at the bottom"), ("int", 0), ("float", 2.5)]
@@ -894,6 +992,8 @@ def run_case(item):
         prog, plan = build_deep(case, lib)
     elif "tail" in case:
         prog, plan = build_tail(case, lib)
+    elif "callback" in case:
+        prog, plan = build_callback(case, lib)
     else:
         prog, plan = build_program(case, lib)
     d = core.case_dir("c19")
@@ -936,6 +1036,9 @@ def run_case(item):
             nargs = [len(plan["stack"])]
         elif "tail" in case:
             problems, cnt = decide_tail(case, plan, res, trace_text, probe_text)
+            nargs = [len(plan["stack"])]
+        elif "callback" in case:
+            problems, cnt = decide_callback(case, plan, res, trace_text, probe_text)
             nargs = [len(plan["stack"])]
         else:
             problems, cnt = decide(case, plan, res, trace_text, probe_text, lib)
@@ -1117,7 +1220,7 @@ def run(ctx):
     lib = libs["A"]
     LAYOUT.clear()
     LAYOUT.update(ffi.install_layout(libs))
-    multi, deepc = multi_catalogue(), deep_catalogue() + tail_catalogue()
+    multi, deepc = multi_catalogue(), deep_catalogue() + tail_catalogue() + callback_catalogue()
     cat = catalogue() + multi + deepc
     rnd = random_cases(ctx, ctx.n(1500, 8000)) + random_multi(ctx, ctx.n(300, 2500))
     items = [(c, lib, False) for c in cat + rnd]
@@ -1153,8 +1256,8 @@ def run(ctx):
         for s in case.get("segments", []):
             for pos, (k, _) in enumerate(s["push"]):
                 kinds_at["%d:%s" % (pos, k)] = kinds_at.get("%d:%s" % (pos, k), 0) + 1
-        if any(res["nargs"]) or case["class"].startswith("fault") or "deep" in case or "tail" in case:
-            out.distinct.add(core.h([case.get("segments") or case.get("deep") or case["tail"], vg]))
+        if any(res["nargs"]) or case["class"].startswith("fault") or "deep" in case or "tail" in case or "callback" in case:
+            out.distinct.add(core.h([case.get("segments") or case.get("deep") or case.get("tail") or case["callback"], vg]))
         if "witness" in res and not res["problems"] and len(out.samples) < 3:
             w = res["witness"]
             out.samples.append({"id": case["id"], "program": w["program_readable"], "stdout": w["run"]["out"],
@@ -1234,6 +1337,8 @@ def replay(path):
         c["deep"]["push"] = [tuple(v) for v in c["deep"]["push"]]
     if "tail" in c:
         c["tail"]["push"] = [tuple(v) for v in c["tail"]["push"]]
+    if "callback" in c:
+        c["callback"]["push"] = [tuple(v) for v in c["callback"]["push"]]
     libs = ffi.build_variants(quiet=True)
     lib = libs["A"]
     LAYOUT.clear()
